@@ -6,6 +6,7 @@ package entropy
 
 import (
 	"bytes"
+	"context"
 	"fmt"
 
 	"github.com/tink-crypto/tink-go/v2/aead"
@@ -58,7 +59,7 @@ var dekTemplates = []struct {
 // envelopePrim wraps the key's factory AEAD as the key-encryption AEAD of a
 // KMS envelope AEAD: every Encrypt generates a fresh DEK, encrypts it under
 // the KEK (KEK IV) and encrypts the data under the DEK (DEK IV).
-func envelopePrim(k key.Key, h *keyset.Handle, tpl int) (*prim, error) {
+func envelopePrim(k key.Key, h *keyset.Handle, tpl int, withContext bool) (*prim, error) {
 	kek, err := aead.New(h)
 	if err != nil {
 		return nil, err
@@ -71,6 +72,15 @@ func envelopePrim(k key.Key, h *keyset.Handle, tpl int) (*prim, error) {
 	iv, ok := aeadIVLen(par)
 	if !ok {
 		return nil, fmt.Errorf("no IV layout for DEK template %s", dekTemplates[tpl].name)
+	}
+	if withContext {
+		// the context-aware envelope type, over the same KEK behind tink.AEADWithContext
+		env, err := aead.NewKMSEnvelopeAEADWithContext(kt, ctxAEAD{kek})
+		if err != nil {
+			return nil, err
+		}
+		return &prim{kind: "envelope-ctx", prefixLen: outputPrefixLen(k), kek: kek, dekIV: iv,
+			produce: func(msg, aad []byte) ([]byte, error) { return env.EncryptWithContext(context.Background(), msg, aad) }}, nil
 	}
 	env := aead.NewKMSEnvelopeAEAD2(kt, kek)
 	return &prim{kind: "envelope", prefixLen: outputPrefixLen(k), produce: env.Encrypt, kek: kek, dekIV: iv}, nil
@@ -238,6 +248,17 @@ func prehashPrim(k key.Key, h *keyset.Handle) (p *prim, ok bool, err error) {
 			}
 			return err
 		}}, true, nil
+}
+
+// ctxAEAD presents a tink.AEAD as a tink.AEADWithContext.
+type ctxAEAD struct{ a tink.AEAD }
+
+func (c ctxAEAD) EncryptWithContext(_ context.Context, pt, ad []byte) ([]byte, error) {
+	return c.a.Encrypt(pt, ad)
+}
+
+func (c ctxAEAD) DecryptWithContext(_ context.Context, ct, ad []byte) ([]byte, error) {
+	return c.a.Decrypt(ct, ad)
 }
 
 func describe(err error) string {
